@@ -32,6 +32,7 @@ type Step struct {
 		Present []int                `json:"present"`
 		Commits [][3]json.RawMessage `json:"commits"`
 		LogLens [][2]json.RawMessage `json:"loglens"`
+		Logs    [][2]json.RawMessage `json:"logs"`
 	} `json:"obs"`
 }
 
@@ -73,6 +74,7 @@ type observed struct {
 	Present []int             `json:"present"`
 	Commits map[int][]int     `json:"commits"` // id -> [content, parents...] for present commits
 	LogLens map[string]int    `json:"loglens"`
+	Logs    map[string][][2]int `json:"logs"` // branch -> [old, new] commit ids, oldest first
 }
 
 func project(r *cli.Repo, idOf map[string]int, kOf map[string]int) (*observed, error) {
@@ -81,7 +83,7 @@ func project(r *cli.Repo, idOf map[string]int, kOf map[string]int) (*observed, e
 		return nil, err
 	}
 	defer closeFn()
-	o := &observed{Heads: map[string][2]int{}, Present: []int{}, Commits: map[int][]int{}, LogLens: map[string]int{}}
+	o := &observed{Heads: map[string][2]int{}, Present: []int{}, Commits: map[int][]int{}, LogLens: map[string]int{}, Logs: map[string][][2]int{}}
 	heads, err := ref.ListHeads(rs)
 	if err != nil {
 		return nil, err
@@ -129,22 +131,35 @@ func project(r *cli.Repo, idOf map[string]int, kOf map[string]int) (*observed, e
 		}
 		o.Heads[b] = [2]int{id, kk}
 		n := 0
+		entries := [][2]int{}
+		idOrZero := func(sum []byte) int {
+			if len(sum) == 0 {
+				return 0
+			}
+			if id, ok := idOf[string(sum)]; ok {
+				return id
+			}
+			return -1
+		}
 		if lr, err := rs.LogReader("heads/" + b); err == nil {
 			for {
-				if _, err := lr.Read(); err != nil {
+				rl, err := lr.Read()
+				if err != nil {
 					break
 				}
 				n++
+				entries = append([][2]int{{idOrZero(rl.OldOID), idOrZero(rl.NewOID)}}, entries...) // newest first -> oldest first
 			}
 			lr.Close()
 		}
 		o.LogLens[b] = n
+		o.Logs[b] = entries
 	}
 	return o, nil
 }
 
 func expectedOf(st *Step) *observed {
-	o := &observed{Heads: map[string][2]int{}, Present: append([]int{}, st.Obs.Present...), Commits: map[int][]int{}, LogLens: map[string]int{}}
+	o := &observed{Heads: map[string][2]int{}, Present: append([]int{}, st.Obs.Present...), Commits: map[int][]int{}, LogLens: map[string]int{}, Logs: map[string][][2]int{}}
 	sort.Ints(o.Present)
 	pres := map[int]bool{}
 	for _, p := range o.Present {
@@ -176,6 +191,16 @@ func expectedOf(st *Step) *observed {
 		json.Unmarshal(l[0], &b)
 		json.Unmarshal(l[1], &n)
 		o.LogLens[b] = n
+	}
+	for _, l := range st.Obs.Logs {
+		var b string
+		var es [][2]int
+		json.Unmarshal(l[0], &b)
+		json.Unmarshal(l[1], &es)
+		if es == nil {
+			es = [][2]int{}
+		}
+		o.Logs[b] = es
 	}
 	return o
 }
@@ -278,6 +303,8 @@ func Replay(i int, raw []byte) child.Result {
 				kind = "present"
 			} else if !reflect.DeepEqual(obs.LogLens, exp.LogLens) {
 				kind = "logs"
+			} else if !reflect.DeepEqual(obs.Logs, exp.Logs) {
+				kind = "log-entries"
 			}
 			return child.Fail("system/"+name+"/"+kind, ctx)
 		}
